@@ -5,6 +5,12 @@ import Driver.Store
 import Driver.Gc
 import Driver.Vm
 import Driver.Syntax
+import Driver.Print
+import Driver.Eval
+import Driver.Scope
+import Driver.Total
+import Driver.Policy
+import Driver.Depth
 /-!
 Line-protocol driver: one request per line (`<component> <arg>…`, space separated), one response
 per line. Unknown or undecodable requests answer `bad-op` — never a default.
@@ -14,7 +20,9 @@ open Marwood
 def handlers : List (String → List String → Option String) :=
   [Marwood.Driver.Reader.handle, Marwood.Driver.Num.handle, Marwood.Driver.Transform.handle,
    Marwood.Driver.Store.handle, Marwood.Driver.Gc.handle, Marwood.Driver.Vm.handle,
-   Marwood.Driver.Syntax.handle]
+   Marwood.Driver.Syntax.handle, Marwood.Driver.Print.handle, Marwood.Driver.Eval.handle,
+   Marwood.Driver.Scope.handle, Marwood.Driver.Total.handle, Marwood.Driver.Policy.handle,
+   Marwood.Driver.Depth.handle]
 
 def respond (line : String) : String :=
   match (line.trimAscii.toString.splitOn " ").filter (· ≠ "") with
